@@ -194,6 +194,9 @@ func TestC20(t *testing.T) {
 
 	t.Run("random", func(t *testing.T) {
 		rapid.Check(t, func(rt *rapid.T) {
+			if pastSoftDeadline(st) {
+				return
+			}
 			seed := rapid.SliceOfN(rapid.Byte(), 32, 32).Draw(rt, "seed")
 			klen := rapid.SampledFrom([]int{16, 32}).Draw(rt, "klen")
 			key := rapid.SliceOfN(rapid.Byte(), klen, klen).Draw(rt, "key")
